@@ -51,8 +51,10 @@ PROPS["C02"] = dict(
     level_text="Dragonbox ingredients as closed obligations generated from the current source: every cache row (78 + 619) "
                "equals the defining ceiling; every integer-log approximation is exact on every argument reachable from a "
                "finite f32/f64 and keeps the cache index and shift in range; every exponent threshold that skips an exact "
-               "test satisfies its defining inequality at every binary exponent. The Dragonbox theorem is assumed.",
-    verus_quick=JEAIII,
+               "test satisfies its defining inequality at every binary exponent; remove_trailing_zeros (f32 and f64) returns "
+               "(n, s) with n * 10^s == significand and n % 10 != 0 for every admissible significand (Verus, on the extracted "
+               "code: modular-inverse exact-division test, the 10^8 multiply-and-compare test, rotations). The Dragonbox theorem is assumed.",
+    verus_quick=JEAIII + [_vc("wf_rtz")],
     rows_quick=["wf-dragonbox-table", "wf-dragonbox-thresholds", "wf-dragonbox-logs"],
     assumptions=["ASSUMED: Dragonbox theorem (Jeon 2020): with exact cache rows, exact helper arithmetic and correctly "
                  "derived thresholds the result is in the rounding interval, shortest and closest",
